@@ -132,10 +132,30 @@ def _wrap(cls, name, is_table: bool):
     setattr(cls, name, wrapped)
 
 
+SOURCES: List[Dict[str, Any]] = []
+
+
+def _wrap_parse():
+    """record the source text and option of every parse the process performs (which succeeded)"""
+    from pydbml.parser.parser import PyDBMLParser
+    orig = PyDBMLParser.parse
+
+    def parse(self):
+        db = orig(self)
+        try:
+            if isinstance(self.source, str):
+                SOURCES.append({'text': self.source, 'allow': bool(getattr(self, '_allow_properties', False)), 'where': _CURRENT['where']})
+        except Exception:
+            pass
+        return db
+    PyDBMLParser.parse = parse
+
+
 def install():
     global _INSTALLED
     if _INSTALLED:
         return
+    _wrap_parse()
     from pydbml.database import Database
     from pydbml.classes import Table
     for n in ('add', 'add_table', 'add_reference', 'add_enum', 'add_table_group', 'add_sticky_note', 'add_project', 'delete',
@@ -173,3 +193,5 @@ def pytest_unconfigure(config):
                 f.write(json.dumps(e, separators=(',', ':')) + '\n')
         with open(out + '.skipped', 'w') as f:
             f.write(str(SKIPPED['n']))
+        with open(out + '.sources', 'w') as f:
+            json.dump(SOURCES, f)
